@@ -476,6 +476,18 @@ func (n *Node) WaitExit(timeout time.Duration) (int, error) {
 	}
 }
 
+// DumpGoroutines sends SIGQUIT (the Go runtime prints every goroutine's stack and exits) and returns
+// the tail of stderr: diagnostics for a request that did not return.  The node is gone afterwards.
+func (n *Node) DumpGoroutines(tailBytes int) string {
+	if n.cmd == nil || n.cmd.Process == nil {
+		return ""
+	}
+	n.cmd.Process.Signal(syscall.SIGQUIT)
+	time.Sleep(1500 * time.Millisecond)
+	n.dead = true
+	return n.StderrTail(tailBytes)
+}
+
 // Alive reports whether the process is believed alive.
 func (n *Node) Alive() bool { return !n.dead && n.cmd != nil }
 
